@@ -258,7 +258,8 @@ fn light_payload(r: &mut Rng, fx: &Fx) -> (Payload, &'static str) {
 }
 fn pre_tx(r: &mut Rng, fx: &Fx) -> (PreAccountTransaction, &'static str) {
     let (payload, name) = light_payload(r, fx);
-    let energy = if r.chance(1, 2) { GivenEnergy::Absolute(Gen::gen(r, fx)) } else { GivenEnergy::Add { energy: Energy::from(r.below(100_000)), num_sigs: r.range(1, 4) as u32 } };
+    // bounded: the builders add fixed costs to the energy with a plain `+`
+    let energy = if r.chance(1, 2) { GivenEnergy::Absolute(Energy::from(r.below(1 << 48))) } else { GivenEnergy::Add { energy: Energy::from(r.below(100_000)), num_sigs: r.range(1, 4) as u32 } };
     (make_transaction(Gen::gen(r, fx), Gen::gen(r, fx), Gen::gen(r, fx), energy, payload), name)
 }
 impl Gen for PreAccountTransaction {
